@@ -539,7 +539,30 @@ func (f *Frame) eval1(v ssa.Value) AV {
 		return avFunc{fn: fn, free: free}
 	case *ssa.Call:
 		return f.evalCall(x)
+	case *ssa.Lookup:
+		if x.CommaOk {
+			return nil
+		}
+		if val, found, known := f.lookupLiteral(x); known {
+			if found {
+				return val
+			}
+			return f.zeroOf(x.Type())
+		}
+		return nil
 	case *ssa.Extract:
+		if lk, ok := x.Tuple.(*ssa.Lookup); ok && lk.CommaOk {
+			if val, found, known := f.lookupLiteral(lk); known {
+				if x.Index == 1 {
+					return cBool(found)
+				}
+				if found {
+					return val
+				}
+				return f.zeroOf(x.Type())
+			}
+			return nil
+		}
 		if call, ok := x.Tuple.(*ssa.Call); ok {
 			if child := f.childFrame(call); child != nil {
 				return child.ReturnValue(x.Index)
@@ -957,4 +980,77 @@ func (f *Frame) liveMustPass(via, to *ssa.BasicBlock) bool {
 		}
 	}
 	return true
+}
+
+// zeroOf: the zero value of a basic type as a constant (nil: not modelled).
+func (f *Frame) zeroOf(t types.Type) AV {
+	b, ok := t.Underlying().(*types.Basic)
+	if !ok {
+		return nil
+	}
+	switch {
+	case b.Info()&types.IsString != 0:
+		return cStr("")
+	case b.Info()&types.IsBoolean != 0:
+		return cBool(false)
+	case b.Info()&types.IsInteger != 0:
+		return cInt(0)
+	}
+	return nil
+}
+
+// lookupLiteral: a lookup in a map built as a literal in this function - a
+// MakeMap whose only other uses are updates with constant keys that dominate
+// the lookup. known is false when the map or the key cannot be modelled.
+func (f *Frame) lookupLiteral(lk *ssa.Lookup) (val AV, found, known bool) {
+	mk, ok := lk.X.(*ssa.MakeMap)
+	if !ok || mk.Referrers() == nil {
+		return nil, false, false
+	}
+	key, ok := f.Eval(lk.Index).(avConst)
+	if !ok || key.v == nil {
+		return nil, false, false
+	}
+	var hit *ssa.MapUpdate
+	for _, ref := range *mk.Referrers() {
+		switch x := ref.(type) {
+		case *ssa.MapUpdate:
+			if x.Map != ssa.Value(mk) {
+				return nil, false, false
+			}
+			if !(x.Block() == lk.Block() && instrIndexOf(x) < instrIndexOf(lk) || x.Block() != lk.Block() && x.Block().Dominates(lk.Block())) {
+				return nil, false, false
+			}
+			k, isK := f.Eval(x.Key).(avConst)
+			if !isK || k.v == nil {
+				return nil, false, false
+			}
+			if k.v.Kind() == key.v.Kind() && constant.Compare(k.v, token.EQL, key.v) {
+				hit = x
+			}
+		case *ssa.Lookup, *ssa.DebugRef:
+		default:
+			return nil, false, false
+		}
+	}
+	if hit == nil {
+		return nil, false, true
+	}
+	v := f.Eval(hit.Value)
+	if v == nil {
+		// present, value not modelled: found is known, the value is not
+		if !lk.CommaOk {
+			return nil, false, false
+		}
+	}
+	return v, true, true
+}
+
+func instrIndexOf(in ssa.Instruction) int {
+	for i, x := range in.Block().Instrs {
+		if x == in {
+			return i
+		}
+	}
+	return -1
 }
